@@ -259,10 +259,12 @@ def run(ck: vlib.Check):
             ck.tie_broken("correspondence", "id-coverage", f"not every representable id was exercised: {g.get('ids_covered')}")
         ck.cov["exhaustive"] = bool(g) and all((g.get("all_ids_covered") or {}).values())
         seen = set()
+        import re as _re
         for m in impl.get("mismatches", []):
-            if m["key"] in seen:
+            cls = _re.sub(r"id=\d+", "id", m["key"])  # one report per (kind, detector): the first offending electronics id
+            if cls in seen:
                 continue
-            seen.add(m["key"])
+            seen.add(cls)
             ck.violation(m["key"], m["what"], {"mismatch": m, "how": "tools/impl/c10_impl.py on the working tree"})
         if impl.get("mismatches"):
             ck.tie_broken("correspondence", "convert_reid_to_teid/arrays(decode_reid)",
